@@ -24,6 +24,8 @@ def check(run, tier):
          "Locate": 0.5}
     traces += E.random_histories(run, n, m, common.SEED, genkw={
         "weights": w, "users": ("alice", "bob"), "versions": [(1, 0), (1, 2), (1, 4), (2, 0)]})
+    # text that is the identifier of no object although a lenient store would read it as one ('01', ' 1', '1.0' ...)
+    traces += E.alias_identifier_traces(quick, prefix="c15alias")
     E.judge(run, traces, only=ONLY, name="c15")
     # "an unsuccessful call changes nothing": a failed attribute operation followed, in the same batch, by an operation that
     # commits - a change the failed item left in the shared unit of work shows up as a change the later item did not ask for
